@@ -19,10 +19,24 @@ func init() {
 // REQ with its stored events (newest first, as a relay does) followed by EOSE.
 type vpMergeChild struct {
 	accept bool
-	text   string
-	count  uint64
+	texts  []string // text of the k-th OK this child sends
+	counts []uint64 // value of the k-th COUNT reply this child sends
 	stored []*Event
 	got    int
+}
+
+func (c *vpMergeChild) text(k int) string {
+	if k < len(c.texts) {
+		return c.texts[k]
+	}
+	return ""
+}
+
+func (c *vpMergeChild) count(k int) uint64 {
+	if k < len(c.counts) {
+		return c.counts[k]
+	}
+	return 0
 }
 
 func (c *vpMergeChild) ServeNostr(ctx context.Context, send chan<- ServerMsg, recv <-chan ClientMsg) error {
@@ -42,6 +56,7 @@ func (c *vpMergeChild) ServeNostr(ctx context.Context, send chan<- ServerMsg, re
 			if !ok {
 				return ErrRecvClosed
 			}
+			k := c.got
 			c.got++
 			switch m := m.(type) {
 			case *ClientEventMsg:
@@ -49,11 +64,11 @@ func (c *vpMergeChild) ServeNostr(ctx context.Context, send chan<- ServerMsg, re
 				if !c.accept {
 					prefix = MachineReadablePrefixBlocked
 				}
-				if !put(NewServerOKMsg(m.Event.ID, c.accept, prefix, c.text)) {
+				if !put(NewServerOKMsg(m.Event.ID, c.accept, prefix, c.text(k))) {
 					return ctx.Err()
 				}
 			case *ClientCountMsg:
-				if !put(NewServerCountMsg(m.SubscriptionID, c.count, nil)) {
+				if !put(NewServerCountMsg(m.SubscriptionID, c.count(k), nil)) {
 					return ctx.Err()
 				}
 			case *ClientReqMsg:
@@ -93,7 +108,9 @@ func vpH_C09_public() {
 	kids := make([]*vpMergeChild, n)
 	hs := make([]Handler, n)
 	for i := range kids {
-		kids[i] = &vpMergeChild{accept: vpBool("accept"), text: vpSym1("text"), count: vpUint64("count")}
+		kids[i] = &vpMergeChild{accept: vpBool("accept"),
+			texts:  []string{vpSym1("text"), vpSym1("text")},
+			counts: []uint64{vpUint64("count"), vpUint64("count")}}
 		hs[i] = kids[i]
 	}
 	h := NewMergeHandler(hs...)
@@ -107,9 +124,20 @@ func vpH_C09_public() {
 	nreq := 2
 	isEvent := make([]bool, nreq)
 	ids := []string{"q0", "q1"}
-	vpPreempt(vpSteps(1, 2))
+	sameID := vpChoice("same-id", 2) == 1 // the second request re-uses the id while the first is in flight
+	if sameID {
+		ids[1] = "q0"
+	}
+	budget := 1
+	if vpTier() > 0 && n == 2 {
+		budget = 2 // thorough: two preemptions with two children (with three: past 15 minutes)
+	}
+	vpPreempt(budget)
 	for k := 0; k < nreq; k++ {
 		isEvent[k] = vpChoice("kind-of-request", 2) == 0
+		if sameID && k == 1 {
+			vpAssume(isEvent[1] == isEvent[0])
+		}
 		if isEvent[k] {
 			recv <- &ClientEventMsg{Event: &Event{ID: ids[k], Tags: []Tag{}}}
 		} else {
@@ -122,7 +150,6 @@ func vpH_C09_public() {
 
 	allAcc := true
 	firstRej := -1
-	var max uint64
 	for i, c := range kids {
 		vpAssert(c.got == nreq, "C09.public-every-child-gets-every-request")
 		if !c.accept {
@@ -131,34 +158,47 @@ func vpH_C09_public() {
 				firstRej = i
 			}
 		}
-		if c.count > max {
-			max = c.count
-		}
 	}
+	// each child is sequential and the broadcast keeps the client's order, so request k is
+	// the k-th one every child answers; with a re-used id the replies come in request order
+	// (request 0 is complete at every child before any child's answer to request 1 is merged)
 	replies := make([]int, nreq)
 	for len(send) > 0 {
+		var id string
+		var okm *ServerOKMsg
+		var cm *ServerCountMsg
 		switch m := (<-send).(type) {
 		case *ServerOKMsg:
-			k := vpIndexOf(ids, m.EventID)
-			vpAssert(k >= 0 && isEvent[k], "C09.public-ok-answers-a-submitted-event")
-			if k < 0 {
-				continue
-			}
-			replies[k]++
-			vpAssert(m.Accepted == allAcc, "C09.public-accepted-iff-all-accepted")
-			if !allAcc && !m.Accepted {
-				vpAssert(strings.HasPrefix(m.Message(), MachineReadablePrefixBlocked+kids[firstRej].text), "C09.public-text-begins-with-first-rejection")
-			}
+			id, okm = m.EventID, m
 		case *ServerCountMsg:
-			k := vpIndexOf(ids, m.SubscriptionID)
-			vpAssert(k >= 0 && !isEvent[k], "C09.public-count-answers-a-count-request")
-			if k < 0 {
-				continue
-			}
-			replies[k]++
-			vpAssert(m.Count == max, "C09.public-count-is-the-maximum")
+			id, cm = m.SubscriptionID, m
 		default:
 			vpAssert(false, "C09.public-unexpected-message")
+			continue
+		}
+		k := vpIndexOf(ids, id)
+		if k == 0 && sameID && replies[0] > 0 {
+			k = 1
+		}
+		vpAssert(k >= 0, "C09.public-reply-answers-a-request")
+		if k < 0 {
+			continue
+		}
+		replies[k]++
+		if okm != nil {
+			vpAssert(isEvent[k], "C09.public-ok-answers-a-submitted-event")
+			vpAssert(okm.Accepted == allAcc, "C09.public-accepted-iff-all-accepted")
+			if !allAcc && !okm.Accepted {
+				vpAssert(strings.HasPrefix(okm.Message(), MachineReadablePrefixBlocked+kids[firstRej].texts[k]), "C09.public-text-begins-with-first-rejection")
+			}
+		} else {
+			vpAssert(!isEvent[k], "C09.public-count-answers-a-count-request")
+			isMax, attained := true, false
+			for _, c := range kids {
+				isMax = vpAnd(isMax, c.counts[k] <= cm.Count)
+				attained = vpOr(attained, c.counts[k] == cm.Count)
+			}
+			vpAssert(vpAnd(isMax, attained), "C09.public-count-is-the-maximum")
 		}
 	}
 	for k := range replies {
